@@ -198,7 +198,7 @@ def gen(rng, tier):
         yield 'square', c.head(fl) + [limbs(a, c.n)], c.tag + '/' + ca
     # --- inverse: zero -> None; u == 1 at entry (raw 1); long even runs (powers of two); the |= 1<<63 repair
     #     (no spare bit and b + p carries); v < u and v >= u branches ---
-    for _ in range(260 * scale):
+    for _ in range(200 * scale):
         c = pick(rng, CFGS if rng.randrange(3) else SMALLN); fl = rng.choice(FL)
         a, ca = operand(rng, c)
         yield 'inverse', c.head(fl) + [limbs(a, c.n)], c.tag + '/' + ca
@@ -218,7 +218,7 @@ def gen(rng, tier):
             v, cls = operand(rng, c)
         yield 'from_bigint', c.head(fl) + [limbs(v, c.n)], c.tag + '/' + cls
     # --- pow: empty exponent, zero, leading zero limbs, 1, 2, p-1, p, (p-1)/2, longer than N limbs ---
-    for _ in range(140 * scale):
+    for _ in range(100 * scale):
         c = pick(rng, SMALLN if rng.randrange(8) else CFGS); fl = rng.choice(FL)
         a, ca = operand(rng, c)
         k = rng.randrange(10)
@@ -256,7 +256,7 @@ def gen(rng, tier):
         br = 'fallback' if c.bits >= 64 * c.n - 1 else ('M<=chunk' if M <= chunk else 'chunked%d' % chunk)
         yield 'sum_of_products', c.head(fl) + [[M], xs, ys], c.tag + '/M%d/%s/%s' % (M, br, 'worst' if worst else 'mixed')
     # --- batch inversion: empty, all zero, zeros at the ends / middle, single, coeff 0 / 1 / random ---
-    for _ in range(200 * scale):
+    for _ in range(150 * scale):
         c = pick(rng, SMALLN if rng.randrange(4) else CFGS); fl = rng.choice(FL)
         ln = rng.choice([0, 1, 1, 2, 3, 5, 8])
         v = []
@@ -288,7 +288,7 @@ def gen(rng, tier):
         yield 'from_int', c.head(fl) + [[bits, signed], [x]], c.tag + '/%s%d' % ('i' if signed else 'u', bits)
     # --- byte strings: empty, shorter than / equal to / one more than / much longer than the modulus, all 0xff,
     #     the modulus itself, p-1, p+1 ---
-    for _ in range(360 * scale):
+    for _ in range(280 * scale):
         c = pick(rng, CFGS if rng.randrange(3) == 0 else SMALLN); fl = rng.choice(FL)
         nb = (c.bits + 7) // 8
         k = rng.randrange(10)
@@ -366,7 +366,7 @@ def xcheck_ok(case):
     return n <= 4
 
 
-XCHECK = {'quick': 114, 'thorough': 950}
+XCHECK = {'quick': 95, 'thorough': 950}
 RULE = ('38 prime moduli (N = 1..9, 12, 13; spare bit / none; every combination of the macro and trait no-carry rules; '
         'top limb 2^63-1 and 2^63-2; lower limbs all MAX; Mersenne 2^61-1, 2^127-1, 2^521-1; 3, 5, 7, 17, 127; 2^64-59; '
         '2^128-159; P-192/256/384, secp256k1 p and n, 2^255-19, bls12_381 Fq/Fr, bn254 Fr, mnt4_753 Fq; 832-bit) x 2 '
@@ -376,10 +376,11 @@ RULE = ('38 prime moduli (N = 1..9, 12, 13; spare bit / none; every combination 
         'pre-subtraction sum / CIOS value is exactly p-1, p, p+1, W-1, W, W+1; exhaustive operand pairs on toy moduli; '
         'non-trivial = some operand after the modulus is non-zero (or a cfg case); distinct = distinct case lines')
 TRUSTED = ['num-bigint (decimal parsing in FromStr, BigUint::to_bytes_le) is modelled by arbitrary-precision Z, not verified',
-           'C15 leaf arithmetic GenArith.v (regenerated by the C15 package from arithmetic.rs) and C15.BigIntModel chains are imported']
+           'C15 leaf arithmetic GenArith.v (regenerated by the C15 package from arithmetic.rs), C15.BigIntModel chains and the C15 lemmas div2_spec / set_top_bit_spec / is_odd_spec (C15.ShiftProofs, C15.RecodeProofs) are imported']
 ASSUMPTIONS = ['default features, x86-64, no `asm` feature (the portable CIOS / square loops are the ones modelled)',
                'into_bigint rotating index (j+i)%N is modelled in the rotated frame (same operations in the same order)',
                'from_random_bytes on inputs shorter than the modulus is modelled as from_bigint of the little-endian value '
                '(its masking is the identity there; the serialization path is C09)',
                'squaring: the top buffer limb before the doubling pass is 0, so `r[2N-1] = r[2N-2] >> 63` is modelled as part of one shift chain']
-HYPOTHESES = []
+HYPOTHESES = ['prime (val m): premise of C01_inverse_prime (and of the batch-inversion instance on limbs); mathematics about the shipped moduli, not code',
+              'field_theory zero one add mul sub opp div inv eq: the abstract field of C01_batch_inversion']
